@@ -356,7 +356,11 @@ func (x *Exec) trSel(t *CSel, env *Env) Val {
 	if si := x.so.structOf(base.T); si != nil {
 		for _, f := range si.Fields {
 			if f.Name == t.Name {
-				return Val{T: f.T, S: app(f.Sel, base.S)}
+				v := Val{T: f.T, S: app(f.Sel, base.S)}
+				if _, isSlice := under(f.T).(*types.Slice); isSlice && len(v.S) < 300 {
+					x.assumeHere(app("wfSlice", v.S)) // a slice field of a struct value is a well-formed slice
+				}
+				return v
 			}
 		}
 		for i, f := range si.Fields {
@@ -469,6 +473,10 @@ func (x *Exec) trCall(t *CCall, env *Env) Val {
 	arg := func(i int) Val { return x.tr(t.Args[i], env) }
 	switch id.Name {
 	case "len":
+		if a := arg(0); a.T == bseqType {
+			x.declBytesEq()
+			return Val{T: tInt, S: app("bseqLen", a.S)}
+		}
 		return Val{T: tInt, S: x.lenOf(env.cur, arg(0))}
 	case "cap":
 		return Val{T: tInt, S: app("s_cap", arg(0).S)}
